@@ -1,5 +1,9 @@
 /-
   C18 upload lemmas: what `uploadLoop` makes the reference device record, for every plan.
+
+  `checked = false` is the loop as shipped (the outcome of the status polls is ignored),
+  `checked = true` the intended one (a final code other than 00h, or 80h still pending when the
+  time-out expires, ends the upload with HpmError).
 -/
 import PyIpmi.Lemmas.Hpm
 namespace PyIpmi.Hpm
@@ -9,7 +13,30 @@ open PyIpmi.Spec.HpmDevice
 /-- answers inside the property's "in progress" quantifier -/
 def benign : Reply → Prop
   | .ok => True
-  | .inProgress _ => True
+  | .inProgress _ _ => True
+  | _ => False
+
+/-- an answer after which a correct upload goes on: OK, or "in progress" whose long duration
+command ends with 00h at a status poll the time-out still allows (poll number `k`, counting
+from 0, is made `k * (lat + interval)` ticks after the block was answered) -/
+def inTime (timeout interval lat : Nat) : Reply → Prop
+  | .ok => True
+  | .inProgress k f => f = 0 ∧ k * (lat + interval) < timeout
+  | _ => False
+
+/-- an answer that must end the upload: another completion code; "in progress" ending with a
+final code other than 00h; "in progress" still pending when the time-out expires -/
+def stops (timeout interval lat : Nat) : Reply → Prop
+  | .err c => c ≠ 0 ∧ c ≠ 0x80
+  | .inProgress k f => (f ≠ 0 ∧ f ≠ 0x80 ∧ k * (lat + interval) < timeout) ∨ timeout ≤ k * (lat + interval)
+  | _ => False
+
+/-- the status polls recorded after the block that ended the upload -/
+def stopTail (timeout interval lat : Nat) (r : Reply) (n : Nat) : Prop :=
+  match r with
+  | .err _ => n = 0
+  | .inProgress k _ =>
+    1 ≤ n ∧ ((k * (lat + interval) < timeout ∧ n = k + 1) ∨ (timeout ≤ k * (lat + interval) ∧ n ≤ k))
   | _ => False
 
 /-- Shape of the requests recorded for the chunks `cs`, the first numbered `num`, the first
@@ -19,53 +46,146 @@ def Seg (plan : Nat → Reply) : List (List Nat) → Nat → Nat → List Ev →
   | [], _, _, evs => evs = []
   | c :: cs, num, i, evs =>
     ∃ n rest, evs = Ev.block num c :: (List.replicate n Ev.status ++ rest) ∧
-      (plan i = .ok → n = 0) ∧ ((∃ k, plan i = .inProgress k) → 1 ≤ n) ∧
+      (plan i = .ok → n = 0) ∧ ((∃ k f, plan i = .inProgress k f) → 1 ≤ n) ∧
       Seg plan cs ((num + 1) % 256) (i + 1) rest
 
-/-- the same, cut after block `j` (which is the last thing recorded) -/
-def SegA (plan : Nat → Reply) : List (List Nat) → Nat → Nat → Nat → List Ev → Prop
+/-- the same for the intended loop: a block answered "in progress" (`k` further in-progress
+answers) is followed by exactly `k + 1` polls - the last one saw the final code - and that code
+was 00h -/
+def SegX (plan : Nat → Reply) : List (List Nat) → Nat → Nat → List Ev → Prop
+  | [], _, _, evs => evs = []
+  | c :: cs, num, i, evs =>
+    ∃ n rest, evs = Ev.block num c :: (List.replicate n Ev.status ++ rest) ∧
+      (plan i = .ok → n = 0) ∧ (∀ k f, plan i = .inProgress k f → n = k + 1 ∧ f = 0) ∧
+      SegX plan cs ((num + 1) % 256) (i + 1) rest
+
+/-- cut after block `j` (relative to the first chunk) and the `n` polls that follow it -/
+def SegA (tail : Reply → Nat → Prop) (plan : Nat → Reply) : List (List Nat) → Nat → Nat → Nat → List Ev → Prop
   | [], _, _, _, _ => False
-  | c :: _, num, i, 0, evs => evs = [Ev.block num c] ∧ ∃ cc, plan i = .err cc
+  | c :: _, num, i, 0, evs => ∃ n, evs = Ev.block num c :: List.replicate n Ev.status ∧ tail (plan i) n
   | c :: cs, num, i, j + 1, evs =>
     ∃ n rest, evs = Ev.block num c :: (List.replicate n Ev.status ++ rest) ∧
-      (plan i = .ok → n = 0) ∧ ((∃ k, plan i = .inProgress k) → 1 ≤ n) ∧
-      SegA plan cs ((num + 1) % 256) (i + 1) j rest
+      (plan i = .ok → n = 0) ∧ (∀ k f, plan i = .inProgress k f → n = k + 1 ∧ f = 0) ∧
+      SegA tail plan cs ((num + 1) % 256) (i + 1) j rest
 
 theorem next_block (num : Nat) :
     (num + Gen.Hpm.blockIncr) &&& Gen.Hpm.blockMask = (num + 1) % 256 := by
   have := Nat.and_two_pow_sub_one_eq_mod (num + 1) 8
   simpa [Gen.Hpm.blockIncr, Gen.Hpm.blockMask] using this
 
+/-! ### the polling loop -/
+
 theorem waitLoop_spec (interval deadline lat : Nat) (f : Nat) (s : St) :
-    ∃ n, (waitLoop interval deadline lat f s).dev.trace = s.dev.trace ++ List.replicate n Ev.status ∧
-      (waitLoop interval deadline lat f s).dev.idx = s.dev.idx ∧
-      (waitLoop interval deadline lat f s).dev.plan = s.dev.plan ∧
+    ∃ n, (waitLoop interval deadline lat f s).2.dev.trace = s.dev.trace ++ List.replicate n Ev.status ∧
+      (waitLoop interval deadline lat f s).2.dev.idx = s.dev.idx ∧
+      (waitLoop interval deadline lat f s).2.dev.plan = s.dev.plan ∧
       (0 < f → s.now < deadline → 1 ≤ n) := by
   induction f generalizing s with
   | zero => exact ⟨0, by simp [waitLoop]⟩
   | succ f ih =>
     by_cases hd : s.now < deadline
-    · by_cases hp : s.dev.pending = 0
-      · refine ⟨1, ?_⟩
-        simp [waitLoop, hd, Dev.getStatus, hp, Gen.Hpm.ccInProgress]
+    · by_cases hl : (if s.dev.pending = 0 then s.dev.final else Spec.HpmDevice.ccInProgress) = Gen.Hpm.ccInProgress
       · obtain ⟨n, h1, h2, h3, _⟩ := ih
           ⟨{ s.dev with pending := s.dev.pending - 1, trace := s.dev.trace ++ [Ev.status] }, s.now + lat + interval⟩
         refine ⟨n + 1, ?_⟩
-        simp [waitLoop, hd, Dev.getStatus, hp, Gen.Hpm.ccInProgress, Spec.HpmDevice.ccInProgress, h1, h2, h3,
-          List.replicate_succ]
+        simp only [waitLoop, hd, if_true, Dev.getStatus, hl]
+        simp [h1, h2, h3, List.replicate_succ]
+      · refine ⟨1, ?_⟩
+        simp only [waitLoop, hd, if_true, Dev.getStatus, hl, if_false]
+        simp
     · exact ⟨0, by simp [waitLoop, hd]⟩
 
 theorem waitLong_spec (timeout interval lat : Nat) (ht : 0 < timeout) (s : St) :
-    ∃ n, (waitLong timeout interval lat s).dev.trace = s.dev.trace ++ List.replicate n Ev.status ∧
-      (waitLong timeout interval lat s).dev.idx = s.dev.idx ∧
-      (waitLong timeout interval lat s).dev.plan = s.dev.plan ∧ 1 ≤ n := by
+    ∃ n, (waitLong timeout interval lat s).2.dev.trace = s.dev.trace ++ List.replicate n Ev.status ∧
+      (waitLong timeout interval lat s).2.dev.idx = s.dev.idx ∧
+      (waitLong timeout interval lat s).2.dev.plan = s.dev.plan ∧ 1 ≤ n := by
   obtain ⟨n, h1, h2, h3, h4⟩ := waitLoop_spec interval (s.now + timeout) lat (s.dev.pending + 1) s
   exact ⟨n, h1, h2, h3, h4 (Nat.succ_pos _) (by omega)⟩
 
+/-- the device ends the long duration command while the time-out still allows a poll: the
+loop returns the final code after exactly `pending + 1` polls -/
+theorem waitLoop_done (interval deadline lat : Nat) (k : Nat) : ∀ (f : Nat) (s : St),
+    s.dev.pending = k → k + 1 ≤ f → s.dev.final ≠ Gen.Hpm.ccInProgress →
+    s.now + k * (lat + interval) < deadline →
+    (waitLoop interval deadline lat f s).1 = some s.dev.final ∧
+    (waitLoop interval deadline lat f s).2.dev.trace = s.dev.trace ++ List.replicate (k + 1) Ev.status ∧
+    (waitLoop interval deadline lat f s).2.dev.idx = s.dev.idx ∧
+    (waitLoop interval deadline lat f s).2.dev.plan = s.dev.plan := by
+  induction k with
+  | zero =>
+    intro f s hp hf hfin hd
+    cases f with
+    | zero => omega
+    | succ f =>
+      have hd' : s.now < deadline := by omega
+      simp [waitLoop, hd', Dev.getStatus, hp, hfin]
+  | succ k ih =>
+    intro f s hp hf hfin hd
+    cases f with
+    | zero => omega
+    | succ f =>
+      have hd' : s.now < deadline := by
+        have : 0 ≤ (k + 1) * (lat + interval) := Nat.zero_le _
+        omega
+      have hp0 : s.dev.pending ≠ 0 := by omega
+      obtain ⟨a, b, c, d⟩ := ih f
+        ⟨{ s.dev with pending := s.dev.pending - 1, trace := s.dev.trace ++ [Ev.status] }, s.now + lat + interval⟩
+        (by simp; omega) (by omega) (by simpa using hfin)
+        (by
+          have : (k + 1) * (lat + interval) = k * (lat + interval) + (lat + interval) := Nat.succ_mul _ _
+          simp only
+          omega)
+      simp only [waitLoop, hd', if_true, Dev.getStatus, hp0, if_false, Spec.HpmDevice.ccInProgress,
+        Gen.Hpm.ccInProgress]
+      refine ⟨by simpa using a, ?_, by simpa using c, by simpa using d⟩
+      rw [b]
+      simp [List.replicate_succ]
+
+/-- the time-out expires first: no result, at most `pending` polls -/
+theorem waitLoop_expired (interval deadline lat : Nat) (k : Nat) : ∀ (f : Nat) (s : St),
+    s.dev.pending = k → deadline ≤ s.now + k * (lat + interval) →
+    (waitLoop interval deadline lat f s).1 = none ∧
+    ∃ n, n ≤ k ∧ (waitLoop interval deadline lat f s).2.dev.trace = s.dev.trace ++ List.replicate n Ev.status := by
+  induction k with
+  | zero =>
+    intro f s hp hd
+    have hd' : ¬ s.now < deadline := by omega
+    cases f with
+    | zero => exact ⟨rfl, 0, Nat.le_refl _, by simp [waitLoop]⟩
+    | succ f => exact ⟨by simp [waitLoop, hd'], 0, Nat.le_refl _, by simp [waitLoop, hd']⟩
+  | succ k ih =>
+    intro f s hp hd
+    cases f with
+    | zero => exact ⟨rfl, 0, Nat.zero_le _, by simp [waitLoop]⟩
+    | succ f =>
+      by_cases hd' : s.now < deadline
+      · have hp0 : s.dev.pending ≠ 0 := by omega
+        obtain ⟨a, n, hn, b⟩ := ih f
+          ⟨{ s.dev with pending := s.dev.pending - 1, trace := s.dev.trace ++ [Ev.status] }, s.now + lat + interval⟩
+          (by simp; omega)
+          (by
+            have : (k + 1) * (lat + interval) = k * (lat + interval) + (lat + interval) := Nat.succ_mul _ _
+            simp only
+            omega)
+        simp only [waitLoop, hd', if_true, Dev.getStatus, hp0, if_false, Spec.HpmDevice.ccInProgress,
+          Gen.Hpm.ccInProgress]
+        refine ⟨by simpa using a, n + 1, by omega, ?_⟩
+        rw [b]
+        simp [List.replicate_succ]
+      · exact ⟨by simp [waitLoop, hd'], 0, Nat.zero_le _, by simp [waitLoop, hd']⟩
+
+/-! ### the block loop -/
+
+/-- the device after it has recorded block `num` = `c` and answered it by `plan idx` -/
+def afterBlock (s : St) (num : Nat) (c : List Nat) (lat : Nat) : St :=
+  ⟨{ s.dev with idx := s.dev.idx + 1, pending := replyPending (s.dev.plan s.dev.idx),
+                final := replyFinal (s.dev.plan s.dev.idx), trace := s.dev.trace ++ [Ev.block num c] }, s.now + lat⟩
+
+/-- As shipped: whatever the status polls report, every block is sent and the upload returns. -/
 theorem uploadLoop_benign (timeout interval lat : Nat) (ht : 0 < timeout) (cs : List (List Nat))
     (num : Nat) (retry : Int) (s : St) (hb : ∀ j, benign (s.dev.plan j)) :
-    ∃ evs, (uploadLoop timeout interval lat cs num retry s).1 = .ok () ∧
-      (uploadLoop timeout interval lat cs num retry s).2.dev.trace = s.dev.trace ++ evs ∧
+    ∃ evs, (uploadLoop false timeout interval lat cs num retry s).1 = .ok () ∧
+      (uploadLoop false timeout interval lat cs num retry s).2.dev.trace = s.dev.trace ++ evs ∧
       Seg s.dev.plan cs num s.dev.idx evs := by
   induction cs generalizing num retry s with
   | nil => exact ⟨[], by simp [uploadLoop, Seg]⟩
@@ -73,67 +193,174 @@ theorem uploadLoop_benign (timeout interval lat : Nat) (ht : 0 < timeout) (cs : 
     have hbi := hb s.dev.idx
     cases hp : s.dev.plan s.dev.idx with
     | ok =>
-      obtain ⟨evs, h1, h2, h3⟩ := ih ((num + 1) % 256) retry
-        ⟨{ s.dev with idx := s.dev.idx + 1, pending := 0, trace := s.dev.trace ++ [Ev.block num c] }, s.now + lat⟩ hb
+      obtain ⟨evs, h1, h2, h3⟩ := ih ((num + 1) % 256) retry (afterBlock s num c lat)
+        (by simpa [afterBlock] using hb)
       refine ⟨Ev.block num c :: evs, ?_, ?_, ?_⟩
-      · simpa [uploadLoop, Dev.upload, hp, replyRsp, replyPending, next_block] using h1
-      · simpa [uploadLoop, Dev.upload, hp, replyRsp, replyPending, next_block] using h2
-      · exact ⟨0, evs, by simp, fun _ => rfl, fun ⟨k, hk⟩ => by simp [hp] at hk, h3⟩
-    | inProgress k =>
-      obtain ⟨n, w1, w2, w3, w4⟩ := waitLong_spec timeout interval lat ht
-        ⟨{ s.dev with idx := s.dev.idx + 1, pending := k, trace := s.dev.trace ++ [Ev.block num c] }, s.now + lat⟩
+      · simpa [uploadLoop, Dev.upload, hp, replyRsp, replyPending, replyFinal, next_block, afterBlock] using h1
+      · simpa [uploadLoop, Dev.upload, hp, replyRsp, replyPending, replyFinal, next_block, afterBlock] using h2
+      · exact ⟨0, evs, by simp, fun _ => rfl, fun ⟨k, f, hk⟩ => by simp [hp] at hk, by simpa [afterBlock] using h3⟩
+    | inProgress k f =>
+      obtain ⟨n, w1, w2, w3, w4⟩ := waitLong_spec timeout interval lat ht (afterBlock s num c lat)
       obtain ⟨evs, h1, h2, h3⟩ := ih ((num + 1) % 256) retry
-        (waitLong timeout interval lat
-          ⟨{ s.dev with idx := s.dev.idx + 1, pending := k, trace := s.dev.trace ++ [Ev.block num c] }, s.now + lat⟩)
-        (by rw [w3]; exact hb)
+        (waitLong timeout interval lat (afterBlock s num c lat)).2
+        (by rw [w3]; simpa [afterBlock] using hb)
       rw [w1] at h2
       rw [w2, w3] at h3
       refine ⟨Ev.block num c :: (List.replicate n Ev.status ++ evs), ?_, ?_, ?_⟩
-      · simpa [uploadLoop, Dev.upload, hp, replyRsp, replyPending, next_block, Spec.HpmDevice.ccInProgress,
-          Gen.Hpm.ccInProgress] using h1
-      · simpa [uploadLoop, Dev.upload, hp, replyRsp, replyPending, next_block, Spec.HpmDevice.ccInProgress,
-          Gen.Hpm.ccInProgress] using h2
-      · exact ⟨n, evs, rfl, fun h => by simp [hp] at h, fun _ => w4, h3⟩
+      · simpa [uploadLoop, Dev.upload, hp, replyRsp, replyPending, replyFinal, next_block, Spec.HpmDevice.ccInProgress,
+          Gen.Hpm.ccInProgress, afterWait, afterBlock] using h1
+      · simpa [uploadLoop, Dev.upload, hp, replyRsp, replyPending, replyFinal, next_block, Spec.HpmDevice.ccInProgress,
+          Gen.Hpm.ccInProgress, afterWait, afterBlock] using h2
+      · exact ⟨n, evs, rfl, fun h => by simp [hp] at h, fun _ => w4, by simpa [afterBlock] using h3⟩
     | err cc => simp [hp, benign] at hbi
     | noAnswer => simp [hp, benign] at hbi
 
-theorem uploadLoop_abort (timeout interval lat : Nat) (ht : 0 < timeout) (cs : List (List Nat))
-    (num : Nat) (retry : Int) (s : St) (j cc : Nat) (hj : j < cs.length)
-    (hb : ∀ t, t < j → benign (s.dev.plan (s.dev.idx + t)))
-    (he : s.dev.plan (s.dev.idx + j) = .err cc) (hc0 : cc ≠ 0) (hc1 : cc ≠ 0x80) :
-    (uploadLoop timeout interval lat cs num retry s).1 = .hpmError ∧
-    ∃ evs, (uploadLoop timeout interval lat cs num retry s).2.dev.trace = s.dev.trace ++ evs ∧
-      SegA s.dev.plan cs num s.dev.idx j evs := by
+/-- what the intended loop does with a block answered "in progress" that ends well in time -/
+theorem waitLong_inTime (timeout interval lat : Nat) (s : St) (num : Nat) (c : List Nat) (k f : Nat)
+    (hp : s.dev.plan s.dev.idx = .inProgress k f) (hf : f ≠ 0x80) (hk : k * (lat + interval) < timeout) :
+    (waitLong timeout interval lat (afterBlock s num c lat)).1 = some f ∧
+    (waitLong timeout interval lat (afterBlock s num c lat)).2.dev.trace =
+      s.dev.trace ++ Ev.block num c :: List.replicate (k + 1) Ev.status ∧
+    (waitLong timeout interval lat (afterBlock s num c lat)).2.dev.idx = s.dev.idx + 1 ∧
+    (waitLong timeout interval lat (afterBlock s num c lat)).2.dev.plan = s.dev.plan := by
+  obtain ⟨a, b, c', d⟩ := waitLoop_done interval ((afterBlock s num c lat).now + timeout) lat k
+    ((afterBlock s num c lat).dev.pending + 1) (afterBlock s num c lat)
+    (by simp [afterBlock, hp, replyPending]) (by simp [afterBlock, hp, replyPending])
+    (by simpa [afterBlock, hp, replyFinal, Gen.Hpm.ccInProgress] using hf) (by omega)
+  refine ⟨?_, ?_, ?_, ?_⟩
+  · simpa [waitLong, afterBlock, hp, replyFinal] using a
+  · simpa [waitLong, afterBlock] using b
+  · simpa [waitLong, afterBlock] using c'
+  · simpa [waitLong, afterBlock] using d
+
+/-- Intended: every block answered OK, or "in progress" ending with 00h in time - every block
+is sent, each wait sees the final code, the upload returns. -/
+theorem uploadLoop_inTime (timeout interval lat : Nat) (cs : List (List Nat))
+    (num : Nat) (retry : Int) (s : St) (hb : ∀ j, inTime timeout interval lat (s.dev.plan j)) :
+    ∃ evs, (uploadLoop true timeout interval lat cs num retry s).1 = .ok () ∧
+      (uploadLoop true timeout interval lat cs num retry s).2.dev.trace = s.dev.trace ++ evs ∧
+      SegX s.dev.plan cs num s.dev.idx evs := by
+  induction cs generalizing num retry s with
+  | nil => exact ⟨[], by simp [uploadLoop, SegX]⟩
+  | cons c cs ih =>
+    have hbi := hb s.dev.idx
+    cases hp : s.dev.plan s.dev.idx with
+    | ok =>
+      obtain ⟨evs, h1, h2, h3⟩ := ih ((num + 1) % 256) retry (afterBlock s num c lat)
+        (by simpa [afterBlock] using hb)
+      refine ⟨Ev.block num c :: evs, ?_, ?_, ?_⟩
+      · simpa [uploadLoop, Dev.upload, hp, replyRsp, replyPending, replyFinal, next_block, afterBlock] using h1
+      · simpa [uploadLoop, Dev.upload, hp, replyRsp, replyPending, replyFinal, next_block, afterBlock] using h2
+      · exact ⟨0, evs, by simp, fun _ => rfl, fun k f hk => by simp [hp] at hk, by simpa [afterBlock] using h3⟩
+    | inProgress k f =>
+      rw [hp] at hbi
+      obtain ⟨hf0, hk⟩ := hbi
+      subst hf0
+      obtain ⟨w0, w1, w2, w3⟩ := waitLong_inTime timeout interval lat s num c k 0 hp (by decide) hk
+      obtain ⟨evs, h1, h2, h3⟩ := ih ((num + 1) % 256) retry
+        (waitLong timeout interval lat (afterBlock s num c lat)).2
+        (by rw [w3]; exact hb)
+      rw [w1] at h2
+      rw [w2, w3] at h3
+      have hgo : afterWait true (waitLong timeout interval lat (afterBlock s num c lat)).1 = true := by
+        rw [w0]; decide
+      have hstep : uploadLoop true timeout interval lat (c :: cs) num retry s =
+          uploadLoop true timeout interval lat cs ((num + 1) % 256) retry
+            (waitLong timeout interval lat (afterBlock s num c lat)).2 := by
+        simp only [uploadLoop, Dev.upload, hp, replyRsp, Spec.HpmDevice.ccInProgress, Gen.Hpm.ccInProgress,
+          next_block]
+        simp only [afterBlock, hp] at hgo
+        simp [hgo, afterBlock, hp]
+      refine ⟨Ev.block num c :: (List.replicate (k + 1) Ev.status ++ evs), ?_, ?_, ?_⟩
+      · rw [hstep]; exact h1
+      · rw [hstep, h2]; simp
+      · exact ⟨k + 1, evs, rfl, fun h => by simp [hp] at h,
+          fun k' f' h => by rw [hp] at h; injection h with h1 h2; subst h1; subst h2; exact ⟨rfl, rfl⟩, h3⟩
+    | err cc => simp [hp, inTime] at hbi
+    | noAnswer => simp [hp, inTime] at hbi
+
+/-- Intended: the first answer that must end the upload comes for block `j` - HpmError, the
+blocks up to `j` were sent, block `j` is followed by the polls of its own wait only. -/
+theorem uploadLoop_stops (timeout interval lat : Nat) (ht : 0 < timeout) (cs : List (List Nat))
+    (num : Nat) (retry : Int) (s : St) (j : Nat) (hj : j < cs.length)
+    (hb : ∀ t, t < j → inTime timeout interval lat (s.dev.plan (s.dev.idx + t)))
+    (he : stops timeout interval lat (s.dev.plan (s.dev.idx + j))) :
+    (uploadLoop true timeout interval lat cs num retry s).1 = .hpmError ∧
+    ∃ evs, (uploadLoop true timeout interval lat cs num retry s).2.dev.trace = s.dev.trace ++ evs ∧
+      SegA (stopTail timeout interval lat) s.dev.plan cs num s.dev.idx j evs := by
   induction cs generalizing num retry s j with
   | nil => simp at hj
   | cons c cs ih =>
     cases j with
     | zero =>
-      have he' : s.dev.plan s.dev.idx = .err cc := by simpa using he
-      refine ⟨?_, [Ev.block num c], ?_, ?_⟩
-      · simp [uploadLoop, Dev.upload, he', replyRsp, hc0, Gen.Hpm.ccInProgress, hc1]
-      · simp [uploadLoop, Dev.upload, he', replyRsp, hc0, Gen.Hpm.ccInProgress, hc1]
-      · simp [SegA, he']
+      have he' : stops timeout interval lat (s.dev.plan s.dev.idx) := by simpa using he
+      cases hp : s.dev.plan s.dev.idx with
+      | ok => simp [hp, stops] at he'
+      | noAnswer => simp [hp, stops] at he'
+      | err cc =>
+        rw [hp] at he'
+        obtain ⟨hc0, hc1⟩ := he'
+        refine ⟨?_, [Ev.block num c], ?_, ?_⟩
+        · simp [uploadLoop, Dev.upload, hp, replyRsp, hc0, Gen.Hpm.ccInProgress, hc1]
+        · simp [uploadLoop, Dev.upload, hp, replyRsp, hc0, Gen.Hpm.ccInProgress, hc1]
+        · exact ⟨0, by simp, by simp [hp, stopTail]⟩
+      | inProgress k f =>
+        rw [hp] at he'
+        have hstep : ∀ r, (waitLong timeout interval lat (afterBlock s num c lat)).1 = r →
+            afterWait true r = false →
+            uploadLoop true timeout interval lat (c :: cs) num retry s =
+              (.hpmError, (waitLong timeout interval lat (afterBlock s num c lat)).2) := by
+          intro r hr hgo
+          rw [← hr] at hgo
+          simp only [uploadLoop, Dev.upload, hp, replyRsp, Spec.HpmDevice.ccInProgress, Gen.Hpm.ccInProgress]
+          simp only [afterBlock, hp] at hgo
+          simp [hgo, afterBlock, hp]
+        rcases he' with ⟨hf0, hf1, hk⟩ | hk
+        · obtain ⟨w0, w1, _, _⟩ := waitLong_inTime timeout interval lat s num c k f hp hf1 hk
+          have hgo : afterWait true (some f) = false := by
+            simp [afterWait, Gen.Hpm.ccOk, hf0]
+          rw [hstep _ w0 hgo]
+          refine ⟨rfl, Ev.block num c :: List.replicate (k + 1) Ev.status, w1, k + 1, rfl, ?_⟩
+          simp [hp, stopTail, hk]
+        · obtain ⟨n, w1, _, _, w4⟩ := waitLong_spec timeout interval lat ht (afterBlock s num c lat)
+          obtain ⟨a, n', hn', b⟩ := waitLoop_expired interval ((afterBlock s num c lat).now + timeout) lat k
+            ((afterBlock s num c lat).dev.pending + 1) (afterBlock s num c lat)
+            (by simp [afterBlock, hp, replyPending]) (by omega)
+          have hnn : n = n' := by
+            have h := w1
+            simp only [waitLong] at h
+            rw [b] at h
+            have := congrArg List.length h
+            simp at this
+            omega
+          subst hnn
+          have hgo : afterWait true none = false := by simp [afterWait]
+          rw [hstep none (by simpa [waitLong] using a) hgo]
+          refine ⟨rfl, Ev.block num c :: List.replicate n Ev.status, ?_, n, rfl, ?_⟩
+          · rw [w1]; simp [afterBlock]
+          · simp only [hp, stopTail]
+            exact ⟨w4, Or.inr ⟨hk, hn'⟩⟩
     | succ j =>
       have hbi := hb 0 (Nat.succ_pos _)
       have hj' : j < cs.length := by simpa using hj
       cases hp : s.dev.plan s.dev.idx with
       | ok =>
-        obtain ⟨h1, evs, h2, h3⟩ := ih ((num + 1) % 256) retry
-          ⟨{ s.dev with idx := s.dev.idx + 1, pending := 0, trace := s.dev.trace ++ [Ev.block num c] }, s.now + lat⟩
-          j hj' (fun t htj => by have := hb (t + 1) (by omega); simpa [Nat.add_assoc, Nat.add_comm 1 t] using this)
-          (by simpa [Nat.add_assoc, Nat.add_comm 1 j] using he)
+        obtain ⟨h1, evs, h2, h3⟩ := ih ((num + 1) % 256) retry (afterBlock s num c lat) j hj'
+          (fun t htj => by
+            have := hb (t + 1) (by omega)
+            simpa [afterBlock, Nat.add_assoc, Nat.add_comm 1 t] using this)
+          (by simpa [afterBlock, Nat.add_assoc, Nat.add_comm 1 j] using he)
         refine ⟨?_, Ev.block num c :: evs, ?_, ?_⟩
-        · simpa [uploadLoop, Dev.upload, hp, replyRsp, replyPending, next_block] using h1
-        · simpa [uploadLoop, Dev.upload, hp, replyRsp, replyPending, next_block] using h2
-        · exact ⟨0, evs, by simp, fun _ => rfl, fun ⟨k, hk⟩ => by simp [hp] at hk, h3⟩
-      | inProgress k =>
-        obtain ⟨n, w1, w2, w3, w4⟩ := waitLong_spec timeout interval lat ht
-          ⟨{ s.dev with idx := s.dev.idx + 1, pending := k, trace := s.dev.trace ++ [Ev.block num c] }, s.now + lat⟩
+        · simpa [uploadLoop, Dev.upload, hp, replyRsp, replyPending, replyFinal, next_block, afterBlock] using h1
+        · simpa [uploadLoop, Dev.upload, hp, replyRsp, replyPending, replyFinal, next_block, afterBlock] using h2
+        · exact ⟨0, evs, by simp, fun _ => rfl, fun k f hk => by simp [hp] at hk, by simpa [afterBlock] using h3⟩
+      | inProgress k f =>
+        simp only [Nat.add_zero, hp] at hbi
+        obtain ⟨hf0, hk⟩ := hbi
+        subst hf0
+        obtain ⟨w0, w1, w2, w3⟩ := waitLong_inTime timeout interval lat s num c k 0 hp (by decide) hk
         obtain ⟨h1, evs, h2, h3⟩ := ih ((num + 1) % 256) retry
-          (waitLong timeout interval lat
-            ⟨{ s.dev with idx := s.dev.idx + 1, pending := k, trace := s.dev.trace ++ [Ev.block num c] }, s.now + lat⟩)
-          j hj'
+          (waitLong timeout interval lat (afterBlock s num c lat)).2 j hj'
           (fun t htj => by
             rw [w2, w3]
             have := hb (t + 1) (by omega)
@@ -141,14 +368,22 @@ theorem uploadLoop_abort (timeout interval lat : Nat) (ht : 0 < timeout) (cs : L
           (by rw [w2, w3]; simpa [Nat.add_assoc, Nat.add_comm 1 j] using he)
         rw [w1] at h2
         rw [w2, w3] at h3
-        refine ⟨?_, Ev.block num c :: (List.replicate n Ev.status ++ evs), ?_, ?_⟩
-        · simpa [uploadLoop, Dev.upload, hp, replyRsp, replyPending, next_block, Spec.HpmDevice.ccInProgress,
-            Gen.Hpm.ccInProgress] using h1
-        · simpa [uploadLoop, Dev.upload, hp, replyRsp, replyPending, next_block, Spec.HpmDevice.ccInProgress,
-            Gen.Hpm.ccInProgress] using h2
-        · exact ⟨n, evs, rfl, fun h => by simp [hp] at h, fun _ => w4, h3⟩
-      | err cc' => simp [hp, benign] at hbi
-      | noAnswer => simp [hp, benign] at hbi
+        have hgo : afterWait true (waitLong timeout interval lat (afterBlock s num c lat)).1 = true := by
+          rw [w0]; decide
+        have hstep : uploadLoop true timeout interval lat (c :: cs) num retry s =
+            uploadLoop true timeout interval lat cs ((num + 1) % 256) retry
+              (waitLong timeout interval lat (afterBlock s num c lat)).2 := by
+          simp only [uploadLoop, Dev.upload, hp, replyRsp, Spec.HpmDevice.ccInProgress, Gen.Hpm.ccInProgress,
+            next_block]
+          simp only [afterBlock, hp] at hgo
+          simp [hgo, afterBlock, hp]
+        refine ⟨?_, Ev.block num c :: (List.replicate (k + 1) Ev.status ++ evs), ?_, ?_⟩
+        · rw [hstep]; exact h1
+        · rw [hstep, h2]; simp
+        · exact ⟨k + 1, evs, rfl, fun h => by simp [hp] at h,
+            fun k' f' h => by rw [hp] at h; injection h with h1 h2; subst h1; subst h2; exact ⟨rfl, rfl⟩, h3⟩
+      | err cc' => simp [hp, inTime] at hbi
+      | noAnswer => simp [hp, inTime] at hbi
 
 /-! ### what the shapes imply for the property's predicates -/
 
@@ -164,6 +399,30 @@ theorem pollsOk_status (plan : Nat → Reply) (i n : Nat) (rest : List Ev) :
   | zero => simp
   | succ n ih => simp [List.replicate_succ, pollsOk, ih]
 
+theorem waitsOk_status (plan : Nat → Reply) (upto i n : Nat) (rest : List Ev) :
+    waitsOk plan upto i (List.replicate n Ev.status ++ rest) = waitsOk plan upto i rest := by
+  induction n with
+  | zero => simp
+  | succ n ih => simp [List.replicate_succ, waitsOk, ih]
+
+theorem leadingPolls_status (n : Nat) (rest : List Ev) :
+    n ≤ leadingPolls (List.replicate n Ev.status ++ rest) := by
+  induction n with
+  | zero => simp
+  | succ n ih => simp [List.replicate_succ, leadingPolls]; omega
+
+theorem pollsAfterLast_status (n acc : Nat) :
+    pollsAfterLast (List.replicate n Ev.status) acc = acc + n := by
+  induction n generalizing acc with
+  | zero => simp [pollsAfterLast]
+  | succ n ih => simp [List.replicate_succ, pollsAfterLast, ih]; omega
+
+theorem pollsAfterLast_block (n acc num : Nat) (c : List Nat) (rest : List Ev) :
+    pollsAfterLast (List.replicate n Ev.status ++ Ev.block num c :: rest) acc = pollsAfterLast rest 0 := by
+  induction n generalizing acc with
+  | zero => simp [pollsAfterLast]
+  | succ n ih => simp [List.replicate_succ, pollsAfterLast, ih]
+
 theorem head_status (n : Nat) (hn : 1 ≤ n) (rest : List Ev) :
     ∃ t, List.replicate n Ev.status ++ rest = Ev.status :: t := by
   cases n with
@@ -171,11 +430,11 @@ theorem head_status (n : Nat) (hn : 1 ≤ n) (rest : List Ev) :
   | succ n => exact ⟨List.replicate n Ev.status ++ rest, by simp [List.replicate_succ]⟩
 
 theorem pollsOk_block (plan : Nat → Reply) (i num n : Nat) (c : List Nat) (rest : List Ev)
-    (h1 : (∃ k, plan i = .inProgress k) → 1 ≤ n) :
+    (h1 : (∃ k f, plan i = .inProgress k f) → 1 ≤ n) :
     pollsOk plan i (Ev.block num c :: (List.replicate n Ev.status ++ rest)) = pollsOk plan (i + 1) rest := by
   cases hp : plan i with
-  | inProgress k =>
-    obtain ⟨t, ht⟩ := head_status n (h1 ⟨k, hp⟩) rest
+  | inProgress k f =>
+    obtain ⟨t, ht⟩ := head_status n (h1 ⟨k, f, hp⟩) rest
     have := pollsOk_status plan (i + 1) n rest
     rw [ht] at this ⊢
     simp only [pollsOk] at this
@@ -183,6 +442,27 @@ theorem pollsOk_block (plan : Nat → Reply) (i num n : Nat) (c : List Nat) (res
   | ok => simp [pollsOk, hp, pollsOk_status]
   | err c => simp [pollsOk, hp, pollsOk_status]
   | noAnswer => simp [pollsOk, hp, pollsOk_status]
+
+theorem waitsOk_block (plan : Nat → Reply) (upto i num n : Nat) (c : List Nat) (rest : List Ev)
+    (h1 : ∀ k f, plan i = .inProgress k f → n = k + 1 ∧ f = 0) :
+    waitsOk plan upto i (Ev.block num c :: (List.replicate n Ev.status ++ rest)) = waitsOk plan upto (i + 1) rest := by
+  cases hp : plan i with
+  | inProgress k f =>
+    obtain ⟨hn, hf⟩ := h1 k f hp
+    have hl := leadingPolls_status n rest
+    have : k < leadingPolls (List.replicate n Ev.status ++ rest) := by omega
+    simp [waitsOk, hp, this, hf, waitsOk_status]
+  | ok => simp [waitsOk, hp, waitsOk_status]
+  | err c => simp [waitsOk, hp, waitsOk_status]
+  | noAnswer => simp [waitsOk, hp, waitsOk_status]
+
+theorem SegX_Seg (plan : Nat → Reply) (cs : List (List Nat)) (num i : Nat) (evs : List Ev)
+    (h : SegX plan cs num i evs) : Seg plan cs num i evs := by
+  induction cs generalizing num i evs with
+  | nil => exact h
+  | cons c cs ih =>
+    obtain ⟨n, rest, h0, h1, h2, h3⟩ := h
+    exact ⟨n, rest, h0, h1, fun ⟨k, f, hk⟩ => by have := (h2 k f hk).1; omega, ih _ _ _ h3⟩
 
 theorem Seg_spec (bs : Nat) (plan : Nat → Reply) (cs : List (List Nat)) (num i : Nat) (evs : List Ev)
     (h : Seg plan cs num i evs) (hnum : num = i % 256) (hsz : ∀ c ∈ cs, 0 < c.length ∧ c.length ≤ bs) :
@@ -199,34 +479,102 @@ theorem Seg_spec (bs : Nat) (plan : Nat → Reply) (cs : List (List Nat)) (num i
     · simp [blocksOf, blocksOf_status, numberedFrom, b, hnum, hc.1, hc.2]
     · rw [pollsOk_block plan i num n c rest h1]; exact d
 
-theorem SegA_spec (bs : Nat) (plan : Nat → Reply) (cs : List (List Nat)) (num i j : Nat) (evs : List Ev)
-    (h : SegA plan cs num i j evs) (hnum : num = i % 256) (hsz : ∀ c ∈ cs, 0 < c.length ∧ c.length ≤ bs) :
+theorem SegX_waits (plan : Nat → Reply) (upto : Nat) (cs : List (List Nat)) (num i : Nat) (evs : List Ev)
+    (h : SegX plan cs num i evs) : waitsOk plan upto i evs = true := by
+  induction cs generalizing num i evs with
+  | nil => simp [SegX] at h; subst h; simp [waitsOk]
+  | cons c cs ih =>
+    obtain ⟨n, rest, rfl, _, h1, hrest⟩ := h
+    rw [waitsOk_block plan upto i num n c rest h1]
+    exact ih _ _ _ hrest
+
+theorem SegA_spec (tail : Reply → Nat → Prop) (bs : Nat) (plan : Nat → Reply) (cs : List (List Nat))
+    (num i j : Nat) (evs : List Ev)
+    (h : SegA tail plan cs num i j evs) (hnum : num = i % 256) (hsz : ∀ c ∈ cs, 0 < c.length ∧ c.length ≤ bs)
+    (htail : ∀ n, tail (plan (i + j)) n → (∃ k f, plan (i + j) = .inProgress k f) → 1 ≤ n) :
     (blocksOf evs).map (·.2) = cs.take (j + 1) ∧ (blocksOf evs).length = j + 1 ∧
       numberedFrom bs i (blocksOf evs) = true ∧ pollsOk plan i evs = true ∧
-      (∃ n d, evs.getLast? = some (Ev.block n d)) := by
+      waitsOk plan (i + j) i evs = true ∧
+      ∃ n, tail (plan (i + j)) n ∧ trailingPolls evs = n ∧
+        (n = 0 → ∃ m d, evs.getLast? = some (Ev.block m d)) ∧ (1 ≤ n → evs.getLast? = some Ev.status) := by
   induction cs generalizing num i j evs with
   | nil => simp [SegA] at h
   | cons c cs ih =>
     have hc := hsz c (List.mem_cons_self)
     cases j with
     | zero =>
-      obtain ⟨h, ⟨cc, hp⟩⟩ := h
+      obtain ⟨n, h, ht⟩ := h
       subst h
-      exact ⟨by simp [blocksOf], by simp [blocksOf], by simp [blocksOf, numberedFrom, hnum, hc.1, hc.2],
-        by simp [pollsOk, hp], num, c, by simp⟩
+      have h1 : (∃ k f, plan i = .inProgress k f) → 1 ≤ n := fun hx => htail n (by simpa using ht) (by simpa using hx)
+      refine ⟨?_, ?_, ?_, ?_, ?_, n, by simpa using ht, ?_, ?_, ?_⟩
+      · have := blocksOf_status n []
+        simp only [List.append_nil] at this
+        simp [blocksOf, this]
+      · have := blocksOf_status n []
+        simp only [List.append_nil] at this
+        simp [blocksOf, this]
+      · have := blocksOf_status n []
+        simp only [List.append_nil] at this
+        simp [blocksOf, this, numberedFrom, hnum, hc.1, hc.2]
+      · have := pollsOk_block plan i num n c [] h1
+        simp only [List.append_nil] at this
+        rw [this]; simp [pollsOk]
+      · have := waitsOk_status plan i (i + 1) n []
+        simp only [List.append_nil] at this
+        simp [waitsOk, this]
+      · simp [trailingPolls, pollsAfterLast, pollsAfterLast_status]
+      · intro hn; subst hn; exact ⟨num, c, by simp⟩
+      · intro hn
+        cases n with
+        | zero => omega
+        | succ n =>
+          have : Ev.block num c :: List.replicate (n + 1) Ev.status =
+              (Ev.block num c :: List.replicate n Ev.status) ++ [Ev.status] := by
+            simp [List.replicate_succ']
+          rw [this, List.getLast?_append]
+          simp
     | succ j =>
       obtain ⟨n, rest, rfl, h0, h1, hrest⟩ := h
-      obtain ⟨a, b, d, e, ⟨ln, ld, hl⟩⟩ := ih ((num + 1) % 256) (i + 1) j rest hrest (by subst hnum; omega)
-        (fun x hx => hsz x (List.mem_cons_of_mem _ hx))
-      refine ⟨?_, ?_, ?_, ?_, ln, ld, ?_⟩
+      have hidx : i + 1 + j = i + (j + 1) := by omega
+      obtain ⟨a, b, d, e, w, n', t1, t2, t3, t4⟩ := ih ((num + 1) % 256) (i + 1) j rest hrest (by subst hnum; omega)
+        (fun x hx => hsz x (List.mem_cons_of_mem _ hx)) (by rw [hidx]; exact htail)
+      rw [hidx] at w t1
+      have hne : rest ≠ [] := by
+        intro hr
+        rw [hr] at b
+        simp [blocksOf] at b
+      have hlast : (Ev.block num c :: (List.replicate n Ev.status ++ rest)).getLast? = rest.getLast? := by
+        have : Ev.block num c :: (List.replicate n Ev.status ++ rest) =
+            (Ev.block num c :: List.replicate n Ev.status) ++ rest := by simp
+        rw [this, List.getLast?_append]
+        cases hr : rest.getLast? with
+        | none => exact absurd (List.getLast?_eq_none_iff.mp hr) hne
+        | some x => simp
+      refine ⟨?_, ?_, ?_, ?_, ?_, n', t1, ?_, ?_, ?_⟩
       · simp [blocksOf, blocksOf_status, a]
       · simp [blocksOf, blocksOf_status, b]
       · simp [blocksOf, blocksOf_status, numberedFrom, d, hnum, hc.1, hc.2]
-      · rw [pollsOk_block plan i num n c rest h1]; exact e
-      · have : Ev.block num c :: (List.replicate n Ev.status ++ rest) =
-            (Ev.block num c :: List.replicate n Ev.status) ++ rest := by simp
-        rw [this, List.getLast?_append, hl]
-        simp
+      · rw [pollsOk_block plan i num n c rest (fun ⟨k, f, hk⟩ => by have := (h1 k f hk).1; omega)]; exact e
+      · rw [waitsOk_block plan (i + (j + 1)) i num n c rest h1]; exact w
+      · -- the polls after the last block are those of `rest`
+        cases rest with
+        | nil => exact absurd rfl hne
+        | cons ev rest' =>
+          cases ev with
+          | status =>
+            -- a segment starts with a block
+            cases cs with
+            | nil => simp [SegA] at hrest
+            | cons c' cs' =>
+              cases j with
+              | zero => obtain ⟨_, hh, _⟩ := hrest; simp at hh
+              | succ j => obtain ⟨_, _, hh, _⟩ := hrest; simp at hh
+          | block m dd =>
+            simp only [trailingPolls, pollsAfterLast] at t2 ⊢
+            rw [pollsAfterLast_block]
+            exact t2
+      · intro hn; rw [hlast]; exact t3 hn
+      · intro hn; rw [hlast]; exact t4 hn
 
 theorem chunks_length (n : Nat) (hn : 0 < n) (l : List Nat) : (chunks n l).length = (l.length + n - 1) / n := by
   induction h : l.length using Nat.strongRecOn generalizing l with
